@@ -72,12 +72,14 @@ COVER_CONSTS = [
     ("CVX_CHAIN", "CVX_PROD * CVX_PERIOD"), ("CVX_NEGSUB", "CVF_TENTH - CVF_NEG"), ("CVX_INT", "CVF_RATE * CVF_THREE + 1"),
     # a constant whose name is the start of another one used in the same expression (N1 / N10): word-wise substitution
     ("N1", "3"), ("N10", "10"), ("CH2", "2"), ("CH25", "25"), ("CVS_SUM", "N1 + N10"), ("CVS_PROD", "N1 * N10 + N1"), ("CVS_CH", "CH2 * CH25"),
+    # whole numbers that come out of a division (a float for the evaluator) and serve as array lengths
+    ("CVD_BUF", "64"), ("CVD_HALF", "CVD_BUF / 2"), ("CVD_QUART", "CVD_HALF / 2"),
 ]
 # the same with names that corrupt the expression when substituted textually (a separate program: such a compiler crashes or rejects)
 SUBSTRING_CONSTS = [
     ("CHANS", "4"), ("CHANS_MAX", "16"), ("LEN", "8"), ("MAX_LEN", "32"), ("RATE", "5"), ("SAMPLE_RATE_HZ", "1000"), ("N1", "3"), ("N10", "10"),
     ("SUB_A", "CHANS * 2 + CHANS_MAX"), ("SUB_B", "LEN + MAX_LEN"), ("SUB_C", "RATE * SAMPLE_RATE_HZ"), ("SUB_D", "CHANS_MAX - CHANS"),
-    ("SUB_E", "(MAX_LEN + LEN) * LEN"), ("SUB_F", "N1 + N10"),
+    ("SUB_E", "(MAX_LEN + LEN) * LEN"), ("SUB_F", "N1 + N10"), ("SUB_HALF", "MAX_LEN / 2"),
 ]
 
 
@@ -87,12 +89,12 @@ def substring_program(core: bool) -> G.Program:
     defs = const_defs(SUBSTRING_CONSTS, path)
 
     def F(name, base, text):
-        return G.FieldSpec(name, f"{base}[{text}]", base, eval_const(text, {d.name: d.value for d in defs}), text)
+        return G.FieldSpec(name, f"{base}[{text}]", base, int(eval_const(text, {d.name: d.value for d in defs})), text)
 
     defs.append(G.Def(kind="struct", name="SUB_STRUCT", file=path, fields=[F("a", "int32", "CHANS * 2 + CHANS_MAX"), F("b", "int16", "LEN + MAX_LEN"),
                                                                          F("c", "char", "N1 + N10"), F("d", "uint8", "CHANS_MAX - CHANS")]))
     defs.append(G.Def(kind="message", name="SUB_MSG", file=path, id=4400, fields=[G.FieldSpec("s", "SUB_STRUCT[N1]", "SUB_STRUCT", 3, "N1"),
-                                                                                F("v", "double", "N1 + N10")]))
+                                                                                F("v", "double", "N1 + N10"), F("h", "int16", "MAX_LEN / 2"), F("k", "float", "SUB_HALF")]))
     spec = G.FileSpec(path=path, defs=defs)
     p = G.Program([spec], path, {"auto_pad": True, "validate_alignment": True, "import_coredefs": core}, "single",
                   {"covering", "const-substring-names", "expr-length", "struct-array"})
@@ -264,7 +266,9 @@ def covering_program(core: bool, variant: int) -> G.Program:
                       fields=[G.FieldSpec("all", "CV_ALL", "CV_ALL"), G.FieldSpec("tail", "unsigned short[4]", "unsigned short", 4, "4")]))
     defs.append(G.Def(kind="message", name="CV_LENGTHS", file=path, id=4324,
                       fields=[G.FieldSpec("a", "int32[N1 + N10]", "int32", 13, "N1 + N10"), G.FieldSpec("b", "int16[CH2 * CH25]", "int16", 50, "CH2 * CH25"),
-                              G.FieldSpec("c", "char[N10]", "char", 10, "N10")]))
+                              G.FieldSpec("c", "char[N10]", "char", 10, "N10"), G.FieldSpec("d", "int16[CVD_BUF / 2]", "int16", 32, "CVD_BUF / 2"),
+                              G.FieldSpec("e", "uint8[CVD_HALF]", "uint8", 32, "CVD_HALF"), G.FieldSpec("f", "double[CVD_QUART / 4]", "double", 4, "CVD_QUART / 4"),
+                              G.FieldSpec("g", "CV_INT8[CVD_BUF / 32]", "CV_INT8", 2, "CVD_BUF / 32")]))
     defs.append(G.Def(kind="signal", name="CV_SIGNAL", file=path, id=4323))
     defs.append(G.Def(kind="module", name="CV_MODULE", file=path, value=42))
     defs.append(G.Def(kind="host", name="CV_HOST", file=path, value=77))
